@@ -227,10 +227,11 @@ const (
 	c03LayNoAmount  // right script, wrong amount
 	c03LayNoScript  // right amount, other script only
 	c03LayEmpty     // no outputs
+	c03LaySplit     // the swap amount on some other script AND the swap script with some other amount
 	c03NLayouts
 )
 
-var c03LayNames = []string{"swap-only", "swap-first", "change-first", "equal-change-first", "three-outputs", "swap-twice", "wrong-amount", "wrong-script", "no-outputs"}
+var c03LayNames = []string{"swap-only", "swap-first", "change-first", "equal-change-first", "three-outputs", "swap-twice", "wrong-amount", "wrong-script", "no-outputs", "amount-and-script-on-different-outputs"}
 
 func c03GenOpening(r *Rng, lay int, amount uint64, want []byte) *wire.MsgTx {
 	tx := wire.NewMsgTx(2)
@@ -283,6 +284,17 @@ func c03GenOpening(r *Rng, lay int, amount uint64, want []byte) *wire.MsgTx {
 		tx.AddTxOut(wire.NewTxOut(int64(amount), chg))
 		tx.AddTxOut(wire.NewTxOut(other(), chg2))
 	case c03LayEmpty:
+	case c03LaySplit:
+		dust := int64(PickI(r, []int64{546, 1000, 330}))
+		a, b := wire.NewTxOut(int64(amount), chg), wire.NewTxOut(dust, want)
+		if r.Bool() {
+			a, b = b, a
+		}
+		tx.AddTxOut(a)
+		tx.AddTxOut(b)
+		if r.Chance(30) {
+			tx.AddTxOut(wire.NewTxOut(other(), chg2))
+		}
 	}
 	return tx
 }
@@ -623,11 +635,13 @@ func runC03(args []string) error {
 	seed := fs.Uint64("seed", 1, "seed")
 	n := fs.Int("n", 400, "random Bitcoin cases")
 	nl := fs.Int("nl", 36, "random Liquid cases")
+	monitor := fs.String("monitor", "c03_monitor", "Coq monitor function (c03_case -> bool)")
+	imports := fs.String("imports", "", "extra Coq import line for the monitor")
 	fs.Parse(args)
 	restore := c03Quiet()
 	defer restore()
 	r := NewRng(*seed)
-	cf := NewCaseFile("From PS Require Import Base.ScriptOps Model.Tx Model.C03Corr.", "c03_case", "c03_check", "c03_monitor")
+	cf := NewCaseFile("From PS Require Import Base.ScriptOps Model.Tx Model.C03Corr.\n"+*imports, "c03_case", "c03_check", *monitor)
 	w, err := c03NewWorld()
 	if err != nil {
 		return err
